@@ -10143,3 +10143,355 @@ func ruleJobFlagLocked(w *World, r *Report) {
 		r.exempt("JOB-FLAG-LOCKED", "type=cron.CronJob", w.Pos(jobT.Obj().Pos()), "no read found: shape not recognised, not decided")
 	}
 }
+
+// EXP-CACHED-GUARD (C07, C10): a parsed rule is only handed out for a fact that was judged in this call.
+func ruleExpCachedGuard(prop string) ruleFn {
+	return func(w *World, r *Report) {
+		r.Rule("EXP-CACHED-GUARD", "the parsed-rule cache is invalidated where a fact changes; nothing invalidates it when a fact's time runs out.  A parsed rule is therefore taken from the cache only for an id whose fact passed the expiry judgement in the same call: the read of the cache either lies behind a call of an expiry judge in its function (on every path from the entry), or its id comes out of the result of a function of the state that judges (the collector).  A cache read in front of the judgement lets a rule with a ttl fire for ever once it has been parsed", 2)
+		a := newLocAnchors(w)
+		judges := expiryJudges(w)
+		// functions of the state layer that reach a judge
+		reachJudge := map[*ssa.Function]bool{}
+		for f := range judges {
+			reachJudge[f] = true
+		}
+		for changed := true; changed; {
+			changed = false
+			for _, fn := range w.Funcs {
+				if reachJudge[fn] || !a.inStateLayer(fn) || isTestFile(w, fn) {
+					continue
+				}
+				allInstrs(fn, func(in ssa.Instruction) {
+					if c := callOf(in); c != nil && c.StaticCallee() != nil && reachJudge[c.StaticCallee()] && !reachJudge[fn] {
+						reachJudge[fn], changed = true, true
+					}
+				})
+			}
+		}
+		n := 0
+		for nT := range a.stateImp {
+			owner := typeKey(nT)
+			// readers of the cache: methods of the state that look an id up in cachedRules and hand back a *Rule
+			readers := map[*ssa.Function]bool{}
+			for _, fn := range w.MethodsOf(nT) {
+				reads := false
+				allInstrs(fn, func(in ssa.Instruction) {
+					if lk, ok := in.(*ssa.Lookup); ok && isFieldLoad(lk.X, owner, "cachedRules") {
+						reads = true
+					}
+					if c := callOf(in); c != nil && c.StaticCallee() != nil && c.StaticCallee().Pkg != nil && c.StaticCallee().Pkg.Pkg.Path() == "sync" && c.StaticCallee().Name() == "Load" && len(c.Args) > 0 {
+						if nn, f, _, ok := fieldOf(c.Args[0]); ok && typeKey(nn) == owner && f == "cachedRules" {
+							reads = true
+						}
+					}
+				})
+				if reads {
+					readers[fn] = true
+				}
+			}
+			isRead := func(fn *ssa.Function) func(in ssa.Instruction) bool {
+				return func(in ssa.Instruction) bool {
+					if lk, ok := in.(*ssa.Lookup); ok && isFieldLoad(lk.X, owner, "cachedRules") && !readers[fn] {
+						return true
+					}
+					c := callOf(in)
+					return c != nil && c.StaticCallee() != nil && readers[c.StaticCallee()] && c.StaticCallee() != fn
+				}
+			}
+			for _, fn := range w.Funcs {
+				if o, ok := stateOwnerOf(a, fn); !ok || o != owner || isTestFile(w, fn) || readers[fn] {
+					continue
+				}
+				isR := isRead(fn)
+				var sites []ssa.Instruction
+				allInstrs(fn, func(in ssa.Instruction) {
+					if isR(in) {
+						sites = append(sites, in)
+					}
+				})
+				if len(sites) == 0 {
+					continue
+				}
+				isJudge := func(in ssa.Instruction) bool {
+					c := callOf(in)
+					return c != nil && c.StaticCallee() != nil && judges[c.StaticCallee()]
+				}
+				hasJudge := false
+				allInstrs(fn, func(in ssa.Instruction) {
+					if isJudge(in) {
+						hasJudge = true
+					}
+				})
+				for _, site := range sites {
+					n++
+					key := "fn=" + fname(fn) + " cache-read#" + itoa(n)
+					if hasJudge {
+						if h, _ := reach(fn, nil, func(x ssa.Instruction) bool { return x == site }, isJudge, nil); h == nil {
+							r.ok("EXP-CACHED-GUARD", key, w.PosOf(site), "behind the expiry judgement in this function")
+						} else {
+							r.violation("EXP-CACHED-GUARD", "fn="+fname(fn), w.PosOf(site), "the parsed rule is taken from the cache on a path that has not asked whether the fact has expired: once parsed, a rule with a ttl is dispatched for ever")
+						}
+						continue
+					}
+					// no judge here: the id comes out of what a judging function returned
+					var idArg ssa.Value
+					if c := callOf(site); c != nil && len(c.Args) > 1 {
+						idArg = c.Args[1]
+					} else if lk, ok := site.(*ssa.Lookup); ok {
+						idArg = lk.Index
+					}
+					fromCollector := idArg != nil && dependsOn(idArg, func(v ssa.Value) bool {
+						c, ok := v.(*ssa.Call)
+						return ok && c.Common().StaticCallee() != nil && reachJudge[c.Common().StaticCallee()]
+					})
+					if fromCollector {
+						r.ok("EXP-CACHED-GUARD", key, w.PosOf(site), "the id comes out of the result of a function that judges expiry")
+					} else {
+						r.violation("EXP-CACHED-GUARD", "fn="+fname(fn), w.PosOf(site), "the parsed rule is taken from the cache for an id that nothing in this call judged: once parsed, a rule with a ttl is dispatched for ever")
+					}
+				}
+			}
+		}
+		if n == 0 {
+			r.exempt("EXP-CACHED-GUARD", "type=<states>", "", "no read of the parsed-rule cache found outside its accessor: shape not recognised, not decided")
+		}
+	}
+}
+
+// CACHE-NIL-GUARD (C13): if nil is ever remembered in the parsed-rule cache, nobody hands a remembered value on untested.
+func ruleCacheNilGuard(w *World, r *Report) {
+	r.Rule("CACHE-NIL-GUARD", "the callers of FindCachedRules dereference every rule they are given.  As long as only parsed rules are stored in the parsed-rule cache that is safe.  If some call stores a nil there (`not a rule: remember that, too`), every value that is read from the cache and then put into a result lies behind a test of that value against nil: a nil *Rule in the result is a nil dereference in the dispatcher, in the goroutine of the event", 1)
+	a := newLocAnchors(w)
+	n := 0
+	for nT := range a.stateImp {
+		owner := typeKey(nT)
+		// writers: helpers that store a parameter into cachedRules
+		writers := map[*ssa.Function]int{}
+		readers := map[*ssa.Function]bool{}
+		nilStored := ""
+		for _, fn := range w.MethodsOf(nT) {
+			allInstrs(fn, func(in ssa.Instruction) {
+				var val ssa.Value
+				if mu, ok := in.(*ssa.MapUpdate); ok && isFieldLoad(mu.Map, owner, "cachedRules") {
+					val = mu.Value
+				}
+				if c := callOf(in); c != nil && c.StaticCallee() != nil && c.StaticCallee().Pkg != nil && c.StaticCallee().Pkg.Pkg.Path() == "sync" && len(c.Args) > 0 {
+					if nn, f, _, ok := fieldOf(c.Args[0]); ok && typeKey(nn) == owner && f == "cachedRules" {
+						switch c.StaticCallee().Name() {
+						case "Store":
+							if len(c.Args) == 3 {
+								val = c.Args[2]
+								if mi, isMI := val.(*ssa.MakeInterface); isMI {
+									val = mi.X
+								}
+							}
+						case "Load":
+							readers[fn] = true
+						}
+					}
+				}
+				if lk, ok := in.(*ssa.Lookup); ok && isFieldLoad(lk.X, owner, "cachedRules") {
+					readers[fn] = true
+				}
+				if val == nil {
+					return
+				}
+				if isNilConst(val) {
+					nilStored = w.PosOf(in)
+				}
+				for i, p := range fn.Params {
+					if resolveSpill(val) == ssa.Value(p) {
+						writers[fn] = i
+					}
+				}
+			})
+		}
+		for fn, i := range writers {
+			for _, ed := range w.Callers(fn) {
+				if isTestFile(w, ed.Caller.Func) {
+					continue
+				}
+				cc := ed.Site.Common()
+				if cc.StaticCallee() == fn && i < len(cc.Args) && isNilConst(cc.Args[i]) {
+					nilStored = w.PosOf(ed.Site.(ssa.Instruction))
+				}
+			}
+		}
+		n++
+		key := "type=" + owner
+		if nilStored == "" {
+			r.ok("CACHE-NIL-GUARD", key, w.Pos(nT.Obj().Pos()), "only values that are not the nil constant are stored in the parsed-rule cache")
+			continue
+		}
+		bad := ""
+		for _, fn := range w.Funcs {
+			if o, ok := stateOwnerOf(a, fn); !ok || o != owner || isTestFile(w, fn) || readers[fn] {
+				continue
+			}
+			allInstrs(fn, func(in ssa.Instruction) {
+				c, ok := in.(*ssa.Call)
+				if !ok || c.Common().StaticCallee() == nil || !readers[c.Common().StaticCallee()] {
+					return
+				}
+				// the *Rule out of the read
+				var vals []ssa.Value
+				for _, ref := range *c.Referrers() {
+					if ex, isEx := ref.(*ssa.Extract); isEx && ex.Index == 0 {
+						vals = append(vals, ex)
+					}
+				}
+				for _, v := range vals {
+					for _, ref := range *v.Referrers() {
+						mu, isMU := ref.(*ssa.MapUpdate)
+						if !isMU || mu.Value != v {
+							continue
+						}
+						tested := controlDependsOnClassic(fn, mu, func(cv ssa.Value) bool {
+							b, isB := cv.(*ssa.BinOp)
+							return isB && (b.Op == token.EQL || b.Op == token.NEQ) && ((b.X == v && isNilConst(b.Y)) || (b.Y == v && isNilConst(b.X)))
+						}, nil)
+						if !tested && bad == "" {
+							bad = w.PosOf(mu)
+						}
+					}
+				}
+			})
+		}
+		if bad != "" {
+			r.violation("CACHE-NIL-GUARD", key, bad, "a nil is remembered in the parsed-rule cache (at "+nilStored+"), and here a remembered value goes into the result without having been tested against nil: the dispatcher dereferences it")
+		} else {
+			r.ok("CACHE-NIL-GUARD", key, nilStored, "a nil is remembered in the cache, and every remembered value is tested before it goes into a result")
+		}
+	}
+	if n == 0 {
+		r.exempt("CACHE-NIL-GUARD", "type=<states>", "", "no state implementation found")
+	}
+}
+
+// CASC-LOAD-AFTER (C08): what goes with a record that is found expired at load goes when everything is in.
+func ruleCascLoadAfter(w *World, r *Report) {
+	r.Rule("CASC-LOAD-AFTER", "a State implementation's Load fills the state in a loop over the stored records.  Inside that loop it calls neither deleteDependencies, nor the removal primitive, nor a helper that judges a record and removes it with its dependents (`expire`): the dependents of a record can come later in the list, and a cascade that runs before they are in finds nothing — they stay, in memory and in storage, for ever (their target is gone).  What was found expired is noted and dealt with after the loop", 2)
+	a := newLocAnchors(w)
+	purge := purgeHelpers(w)
+	for nt := range a.stateImp {
+		owner := typeKey(nt)
+		load := w.TryMethod(typeRel(nt), nt.Obj().Name(), "Load")
+		if load == nil {
+			continue
+		}
+		dd := w.TryMethod(typeRel(nt), nt.Obj().Name(), "deleteDependencies")
+		rem := w.TryMethod(typeRel(nt), nt.Obj().Name(), "rem")
+		add := w.TryMethod(typeRel(nt), nt.Obj().Name(), "add")
+		setters, _ := factMapHelpers(w, a, owner)
+		key := "fn=" + fname(load)
+		var loading []*natLoop
+		for _, l := range naturalLoops(load) {
+			fills := false
+			for b := range l.Body {
+				for _, in := range b.Instrs {
+					if mu, ok := in.(*ssa.MapUpdate); ok && isFieldLoad(mu.Map, owner, stateFactField[owner]) {
+						fills = true
+					}
+					if c := callOf(in); c != nil && c.StaticCallee() != nil {
+						if _, isSetter := setters[c.StaticCallee()]; isSetter || (add != nil && c.StaticCallee() == add) {
+							fills = true
+						}
+					}
+				}
+			}
+			if fills {
+				loading = append(loading, l)
+			}
+		}
+		if len(loading) == 0 {
+			r.exempt("CASC-LOAD-AFTER", key, w.Pos(load.Pos()), "no loop that fills the fact map found in Load: shape not recognised, not decided")
+			continue
+		}
+		bad, badName := "", ""
+		for _, l := range loading {
+			for b := range l.Body {
+				for _, in := range b.Instrs {
+					c := callOf(in)
+					if c == nil || c.StaticCallee() == nil {
+						continue
+					}
+					f := c.StaticCallee()
+					if (dd != nil && f == dd) || (rem != nil && f == rem) || purge[f] {
+						bad, badName = w.PosOf(in), f.Name()
+					}
+				}
+			}
+		}
+		if bad != "" {
+			r.violation("CASC-LOAD-AFTER", key, bad, "a record is removed with its dependents (`"+badName+"`) while the state is still being filled: dependents that come later in the stored list are not in yet, are not found, and stay behind for ever")
+		} else {
+			r.ok("CASC-LOAD-AFTER", key, w.Pos(load.Pos()), "nothing is cascaded inside the loop that fills the state")
+		}
+	}
+}
+
+// IDX-EMPTY-ALL (C01, C05, C10): "nothing is filed below this node" looks at every branch a node has.
+func ruleIdxEmptyAll(prop string) ruleFn {
+	return func(w *World, r *Report) {
+		r.Rule("IDX-EMPTY-ALL", "a node of the rule index has several kinds of branches (literal keys, the variable branch, the map branch) and the ids filed at it.  A method of core.PatternIndex that takes nothing, returns a bool and only compares fields of its receiver with empty (`len(x) == 0`, `x == nil`) is a test for `nothing is filed at or below this node`, and what is done with the answer is pruning: it therefore looks at every field of the node that can hold something.  A test that forgets one branch prunes a node that still has rules under that branch, and those rules are never dispatched again", 0)
+		pi := w.Named("core", "PatternIndex")
+		st, ok := pi.Underlying().(*types.Struct)
+		if !ok {
+			undecided("IDX-EMPTY-ALL: core.PatternIndex is not a struct")
+		}
+		var holders []string
+		for i := 0; i < st.NumFields(); i++ {
+			switch st.Field(i).Type().Underlying().(type) {
+			case *types.Map, *types.Pointer, *types.Slice:
+				holders = append(holders, st.Field(i).Name())
+			}
+		}
+		n := 0
+		for _, fn := range w.MethodsOf(pi) {
+			sig := fn.Signature
+			if sig.Params().Len() != 0 || sig.Results().Len() != 1 || !types.Identical(sig.Results().At(0).Type(), types.Typ[types.Bool]) || len(fn.Blocks) == 0 {
+				continue
+			}
+			// only field reads of the receiver, len, comparisons with empty, branches
+			simple := true
+			read := map[string]bool{}
+			allInstrs(fn, func(in ssa.Instruction) {
+				switch x := in.(type) {
+				case *ssa.FieldAddr:
+					if x.X != ssa.Value(fn.Params[0]) {
+						simple = false
+					}
+					if _, f, _, ok := fieldOf(x); ok {
+						read[f] = true
+					}
+				case *ssa.UnOp, *ssa.BinOp, *ssa.Phi, *ssa.If, *ssa.Jump, *ssa.Return, *ssa.DebugRef:
+				case *ssa.Call:
+					if b, isB := x.Common().Value.(*ssa.Builtin); !isB || b.Name() != "len" {
+						simple = false
+					}
+				default:
+					simple = false
+				}
+			})
+			if !simple || len(read) < 2 {
+				continue
+			}
+			n++
+			key := "fn=" + fname(fn)
+			var missing []string
+			for _, h := range holders {
+				if !read[h] {
+					missing = append(missing, h)
+				}
+			}
+			if len(missing) > 0 {
+				r.violation("IDX-EMPTY-ALL", key, w.Pos(fn.Pos()), "this emptiness test of an index node does not look at `"+strings.Join(missing, "`, `")+"`: a node that still has rules under that branch counts as empty and is pruned")
+			} else {
+				r.ok("IDX-EMPTY-ALL", key, w.Pos(fn.Pos()), "looks at every branch of the node")
+			}
+		}
+		if n == 0 {
+			r.ok("IDX-EMPTY-ALL", "type=core.PatternIndex", w.Pos(pi.Obj().Pos()), "no emptiness test of an index node: nothing is pruned by one")
+		}
+	}
+}
